@@ -16,12 +16,12 @@ from ..values_common import (FAM, INT_KINDS, FLOAT_KINDS, INT_RANGE, INT_WIDTH, 
                              V_struct, V_arr, V_sarr)
 
 THEOREMS = [
-    "C09_table_ok", "C09_int_roundtrip", "C09_extent", "C09_atomic_partial", "C09_atomic_refuted",
+    "C09_table_ok", "C09_int_roundtrip", "C09_extent", "C09_atomic",
     "C09_readback_scalar", "C09_readback_index", "C09_readback_whole", "C09_readback_sarr_index",
-    "C09_readback_sarr_whole", "C09_refuse_partial", "C09_refuse_refuted",
+    "C09_readback_sarr_whole", "C09_refuse",
     "C09_narrow_is_flocq", "C09_float_nearest", "C09_float_overflow_refused",
-    "C09_flag_partial", "C09_flag_refuted", "C09_flag_stuck_off", "C09_flag_threads_independent",
-    "C09_ex_accept", "C09_ex_refuse", "C09_ex_slice", "C09_ex_float_array", "C09_ex_flag",
+    "C09_flag", "C09_flag_threads_independent",
+    "C09_ex_accept", "C09_ex_refuse", "C09_ex_slice", "C09_ex_nan_neighbour", "C09_ex_float_array", "C09_ex_flag",
 ]
 
 NAN = 0x7FF8000000000000
